@@ -194,7 +194,7 @@ static void scenario(const vh::Json& sc, vh::Out& out, vh::Rng& rng, const vh::A
             else if (op == "pown") { Wd.pslots[b] = Packet(Wd.slots[a], Timestamp(), Packet::own_pdu()); Wd.slots[a] = 0; Wd.ops[a] = 0; }
             else if (op == "pcopy") { if (rng.coin()) Wd.pslots[b] = Wd.pslots[a]; else { Packet tmp(Wd.pslots[a]); Wd.pslots[b] = std::move(tmp); }
                 ser_ok = (!Wd.pslots[a].pdu() && !Wd.pslots[b].pdu()) || (Wd.pslots[a].pdu() && Wd.pslots[b].pdu() && ser(Wd.pslots[b].pdu()) == ser(Wd.pslots[a].pdu())); }
-            else if (op == "pmove") { Wd.pslots[b] = std::move(Wd.pslots[a]); }
+            else if (op == "pmove") { Packet& src = Wd.pslots[a]; Wd.pslots[b] = std::move(src); }      /* a == b: self-move through a second reference */
             else if (op == "prelease") { Wd.slots[b] = Wd.pslots[a].release_pdu(); Wd.ops[b] = 0;
                 if (Wd.slots[b]) { for (int q = 0; q < 3; ++q) { PDU* t = Wd.cmap[q]->make(); bool same = typeid(*t) == typeid(*Wd.slots[b]); delete t; if (same) { Wd.ops[b] = Wd.cmap[q]; break; } } } }
             else if (op == "pdrop") { Wd.pslots[a] = Packet(); }
